@@ -324,6 +324,12 @@ def perform_zhit(
         if not (0 < polynomial_order < num_points):
             raise ValueError(f"Expected 0 < {polynomial_order=} < {num_points=}")
 
+    if smoothing in ("auto", "modsinc"):
+        if polynomial_order not in (2, 4, 6, 8, 10):
+            raise ValueError(
+                f"Expected {polynomial_order=} to be 2, 4, 6, 8, or 10 when using the modified sinc kernel ({smoothing=})"
+            )
+
     if len(_WINDOW_FUNCTIONS) == 0:
         _initialize_window_functions()
 
